@@ -136,7 +136,9 @@ TEXT['C04'] = dict(
 TEXT['C06'] = dict(
     category='other',
     text='Deductive part: Grid.getMin/getMax (local, whole grid, one and two fixed axes), getBlockForFig, '
-         'DiagnosticCollector.reduce and setupSave are executed in a trace abstraction (rank-local data opaque, every branch on '
+         'DiagnosticCollector.reduce, setupSave, the single-step transposes of LayoutHandler (one Alltoall on the sub-communicator of '
+         'the swapped position, none for in-process pairs) and of LayoutSwapper (one Allgather in the gather branch, none otherwise) '
+         'are executed in a trace abstraction (rank-local data opaque, every branch on '
          'them explored both ways) and every path must produce the one collective sequence the contract states as a function of '
          'the uniform arguments (operation, op, root) - so any two ranks agree. Bounded part: the real constructors, transposes, '
          'reductions, gathers and setupSave run on a simulated MPI that raises on any mismatched or missing collective, with '
